@@ -67,8 +67,9 @@ def full_case(d, tier='quick', ncand=None):
                     r.append([c])
             r = r or [[nc]]
         if d.p(25) and len(r) >= 2:
-            i = d.int(0, len(r) - 2)
-            r[i:i + 2] = [r[i] + r[i + 1]]
+            k = min(len(r), d.choice([2, 2, 3, 4]))
+            i = d.int(0, len(r) - k)
+            r[i:i + k] = [[c for rank in r[i:i + k] for c in rank]]
         ballots.append([1 if use_ids else d.small(1, 9), r])
     case = dict(ncand=nc, nseats=ns, withdrawn=wd, undeclared=und, tie=tie, ballots=ballots)
     short = len(el) - model.nballots(case)
